@@ -41,6 +41,7 @@ type c11Args struct {
 	Shard  int
 	Shards int
 	Depth  int
+	Prefix bool // start from a logged-in session and a saved ACL file (three actions deeper than the root)
 }
 
 func sha(s string) string { h := sha256.Sum256([]byte(s)); return hex.EncodeToString(h[:]) }
@@ -230,6 +231,10 @@ func (c11Check) Units(tier string, seed int64) []Unit {
 			b, _ := json.Marshal(c11Args{Ext: ext, Shard: s, Shards: shards, Depth: d})
 			us = append(us, Unit{Name: fmt.Sprintf("%s-depth%d-shard%d", ext, d, s), Args: b})
 		}
+		for s := 0; s < 8; s++ {
+			b, _ := json.Marshal(c11Args{Ext: ext, Shard: s, Shards: 8, Depth: depth - 2, Prefix: true})
+			us = append(us, Unit{Name: fmt.Sprintf("%s-logged-in-saved-depth%d-shard%d", ext, depth-2, s), Args: b})
+		}
 	}
 	return us
 }
@@ -274,13 +279,19 @@ func (c11Check) Run(u Unit, w *Worker) UnitResult {
 	res := UnitResult{Stats: map[string]int64{}}
 	alpha := c11Alphabet()
 	cfg := InstCfg{Conns: 3, RequirePass: true, Password: "adminpw", AclConfig: "/data/acl." + a.Ext, DataDir: "/data"}
-	root := []Action{cmdOn(0, "AUTH", "adminpw"), cmdOn(0, "SET", "a", "x")}
+	base := []Action{cmdOn(0, "AUTH", "adminpw"), cmdOn(0, "SET", "a", "x")}
+	root := base
+	if a.Prefix {
+		// a user exists, a session is logged in as that user, the ACL file holds that state: what comes next (LOAD, rule
+		// changes, commands on the old session) is explored from here
+		root = append(append([]Action{}, base...), alpha[0], cmdOn(1, "AUTH", "u", "p1"), cmdOn(0, "ACL", "SAVE"))
+	}
 	spec := &SeqSpec{Prop: "C11", Cfg: cfg, Depth: a.Depth, Deadline: 20 * time.Minute,
 		Alphabet: func(pre *State, depth int) []Action { return alpha }}
 	spec.Check = func(path []Action, pre *State, act Action, out StepOut, post *State) []Finding {
 		var fs []Finding
 		ref := newC11Ref()
-		for _, p := range path[len(root):] {
+		for _, p := range path[len(base):] {
 			ref.step(p)
 		}
 		before := *ref
@@ -302,7 +313,7 @@ func (c11Check) Run(u Unit, w *Worker) UnitResult {
 		}
 		add := func(kind, tail, detail string) {
 			fs = append(fs, Finding{Prop: "C11", Kind: kind, Sig: kind + "|" + name + "|" + tail,
-				Detail: fmt.Sprintf("[acl.%s] after [%s]: %s -> %s: %s", a.Ext, pathString(path[len(root):]), act, firstN(out.Brief(), 120), detail)})
+				Detail: fmt.Sprintf("[acl.%s] after [%s]: %s -> %s: %s", a.Ext, pathString(path[len(base):]), act, firstN(out.Brief(), 120), detail)})
 		}
 		if out.Panic != "" {
 			add("panic", panicSite(out.Panic), firstLine(out.Panic))
